@@ -65,7 +65,8 @@ static void one(const std::vector<bgen::Elem> &alph, const Stored &st, const std
     if(ne != seq.size()) vp::violation("element-count|rtosc_bundle_elements|" + shape, cid, "reports " + std::to_string(ne) + " elements, bundle has " + std::to_string(seq.size()));
     // "len: upper bound on the length of the bundle": any larger bound gives the same count (the destination was zero-filled
     // behind the bundle, so the walk ends at the zero size word)
-    if(built_ok || true) for(size_t ub : {len + 1, len + 4, BUFSZ, (size_t)0x7fffffff, (size_t)1 << 40, (size_t)-1}) {
+    memset(g_buf + BUFSZ, 0, sizeof g_buf - BUFSZ);      // a bundle that fills the destination to its last word is followed by the zero word as well
+    for(size_t ub : {len + 1, len + 4, BUFSZ, (size_t)0x7fffffff, (size_t)1 << 40, (size_t)-1}) {
         vp::transition();
         size_t ne2 = rtosc_bundle_elements(g_buf, ub);
         if(ne2 != seq.size()) { vp::violation("element-count|rtosc_bundle_elements|upper-bound," + shape, cid, "reports " + std::to_string(ne2) + " elements with upper bound " + std::to_string(ub) + ", bundle has " + std::to_string(seq.size())); break; }
